@@ -69,9 +69,9 @@ ObsF(o, qq) ==
 ---------------------------------------------------------------------------
 Ideal == IF kind = "bounded" THEN IdealB(q, cap, Ev) ELSE IdealF(q, first, Ev)
 KnownOp == IF kind = "bounded"
-             THEN Ev.ev \in DrainIterOps \cup {"push", "pop", "views", "clone", "get", "index", "get_mut", "index_mut",
+             THEN Ev.ev \in DrainIterOps \cup {"push", "pop", "views", "clone", "fmt", "get", "index", "get_mut", "index_mut",
                              "drain", "iter_mut", "slices_mut", "extend"}
-             ELSE Ev.ev \in {"push", "views", "clone", "get", "index", "get_mut", "index_mut",
+             ELSE Ev.ev \in {"push", "views", "clone", "fmt", "get", "index", "get_mut", "index_mut",
                              "set_first", "iter_mut", "slices_mut", "extend"}
 
 AcceptReset ==
